@@ -83,8 +83,12 @@ def compiled_index(v, depth=0):
     return None
 
 
+PIVOT = 7
+
+
 def rule_walker(F, R):
     from . import tokens as T
+    matched_accessor = F.find("walk::glob::GlobEntry::matched")
     cl = c20.walker_closure(F)
     uv = c20.upvars(F, cl)
     n = 0
@@ -153,7 +157,8 @@ def rule_walker(F, R):
                 program = Adt("walk::glob::WalkProgram", "WalkProgram", {"complete": Sym("complete"), "components": RList(list(programs_for[k]))})
                 walker = Adt("walk::glob::GlobWalker", "GlobWalker", {"anchor": Sym("anchor"), "program": program})
                 for name, var in uv.items():
-                    env[var] = Cell(walker if name == "self" else Sym(name))
+                    # a concrete pivot (sums with it cannot overflow): the number of prefix components of the cell
+                    env[var] = Cell(walker if name == "self" else (PIVOT if name == "pivot" else Sym(name)))
                 clo = Closure(cl.key, env)
                 sep = W.separation("filtrate", ok(Adt("walk::TreeEntry", "TreeEntry", {"entry": Sym("dirent")})))
                 return I.call_closure(clo, [c13.cancellation(), sep])
@@ -197,13 +202,18 @@ def rule_walker(F, R):
             elif gate:
                 problems.append("the complete program is consulted (%s) although the entry is decided by its component" % gate)
             rrp = [ev for ev in c.log if ev[0] == "rrp"]
-            if not rrp or any(ev[1:] != ("path(entry)", str(d), "pivot") for ev in rrp):
+            if not rrp or any(ev[1:] != ("path(entry)", str(d), str(PIVOT)) for ev in rrp):
                 problems.append("root_relative_paths called with %s, expected (entry.path(), entry.depth(), pivot)" % [ev[1:] for ev in rrp])
             if want[0] == "filtrate" and state == "filtrate":
                 g = strip(payload.fields.get("0")) if isinstance(payload, Adt) and payload.variant == "Ok" else None
-                if not (isinstance(g, Adt) and g.path == "walk::glob::GlobEntry" and c13._n(g.fields.get("pivot")) == "pivot"
-                        and c13._n(g.fields.get("matched")).startswith("matched(captures") and isinstance(strip(g.fields.get("entry")), Adt)):
-                    problems.append("the yielded item is %r, expected GlobEntry{entry, pivot, matched: the complete program's captures}" % (payload,))
+                # judged through the entry's own accessor (which fields a GlobEntry stores is its own business; its
+                # segments and depth are decided by C14.pivot on entries built by this same closure)
+                mt = None
+                if isinstance(g, Adt) and g.path == "walk::glob::GlobEntry":
+                    Im = W.new_interp(F)
+                    mt = strip(tabulate.single(Im.explore(lambda: Im.call_item(matched_accessor, [Ref(Place(Cell(g)))]))))
+                if not (isinstance(mt, Sym) and mt.name.startswith("matched(captures")):
+                    problems.append("the yielded item is %r whose matched() is %r, expected a GlobEntry whose matched text is the complete program's captures" % (payload, mt))
             elif state in ("node", "tree"):
                 if not (isinstance(payload, Adt) and payload.path == "walk::TreeEntry"):
                     problems.append("residue payload %r is not the entry" % (payload,))
